@@ -29,6 +29,9 @@ type Obligation struct {
 	Ms      int64
 	Model   string
 	Query   string
+	ModelQuery string // the query the model was obtained from
+	Candidate  bool   // model found after dropping quantified assumptions
+	StrLits    map[string]string // string-literal symbol -> text (for replay)
 }
 
 type VC struct {
@@ -201,8 +204,8 @@ type heapEdge struct {
 var heapCounter int
 
 func (vc *VC) NewRootHeap() *Heap {
-	heapCounter++
-	return &Heap{id: heapCounter, vals: map[string]string{}, havoc: true, vc: vc}
+	// the entry heap always has id 0 so that its variables have stable names (X@0) usable in replay templates
+	return &Heap{id: 0, vals: map[string]string{}, havoc: true, vc: vc}
 }
 
 func (h *Heap) child() *Heap {
